@@ -26,11 +26,20 @@ type c13Case struct {
 	Cmd    string   `json:"cmd,omitempty"`   // execraw: the command; Value is the expected result
 	Second bool     `json:"second"`          // a second variable W is defined too and used next to the first
 	Nested bool     `json:"nested"`          // run from a nested working directory
+	Twin   bool     `json:"twin,omitempty"`  // a variable whose name differs only in letter case is defined too
 }
 
 // Env, Names, String: names that coincide with plausible method names of whatever value the template engine is handed
 var c13Names = []string{"V", "HOME", "AMB", "DOT", "BOTH", "Env", "Names", "String"}
 var c13Values = []string{"plain", "in ner", " lead", "trail ", "$x", "${x}", "{", "}", "a=b", "#", "'", "", "é-ü", "x'y z", "-n", "%s", "a\tb", "{{.W}}", "a{{.HOME}}b", "100%", "{{"}
+
+// c13Twin: the same name in the other letter case
+func c13Twin(n string) string {
+	if strings.ToUpper(n) == n {
+		return strings.ToLower(n)
+	}
+	return strings.ToUpper(n)
+}
 
 func shellSafe(v string) bool { return !strings.ContainsAny(v, "'\n\r()") }
 
@@ -55,6 +64,9 @@ func (c c13Case) text() string {
 	if c.Second {
 		sb.WriteString("W := \"second\"\n")
 	}
+	if c.Twin {
+		fmt.Fprintf(&sb, "%s := \"twinvalue\"\n", c13Twin(c.Name))
+	}
 	second := ""
 	if c.Second {
 		second = "{{.W}}"
@@ -64,6 +76,11 @@ func (c c13Case) text() string {
 	if c.Second {
 		sb.WriteString("    printf '%s\\n' \"$W\"\n")
 	}
+	if c.Twin {
+		fmt.Fprintf(&sb, "    printf '%%s\\n' \"$%s\"\n", c13Twin(c.Name))
+	}
+	// the same variable as seen by an external process started by the command
+	fmt.Fprintf(&sb, "    sh -c 'printf \"%%s\\n\" \"$%s\"'\n", c.Name)
 	sb.WriteString("}\n")
 	return sb.String()
 }
@@ -78,6 +95,11 @@ func c13Cases(tier string) []c13Case {
 				}
 				out = append(out, c13Case{Name: n, Kind: "string", Value: v, Second: second})
 			}
+		}
+	}
+	for _, n := range []string{"V", "tgt", "HOME", "AMB"} {
+		for _, v := range []string{"plain", "a=b", ""} {
+			out = append(out, c13Case{Name: n, Kind: "string", Value: v, Twin: true})
 		}
 	}
 	partsets := [][]string{{"a"}, {"a", "b"}, {".", "bin"}, {"..", "x"}, {""}, {"", "a"}, {"a", ""}, {"a", "..", "b"}, {"a/b", "c"}, {"a", ".", "b"}, {"./a/", "b/"}, {"..", ".."}, {}}
@@ -171,6 +193,10 @@ func c13Run(root string, c c13Case) (obs []c13Obs, inv int) {
 		if c.Second {
 			wantEnv = append(wantEnv, "second\n")
 		}
+		if c.Twin {
+			wantEnv = append(wantEnv, "twinvalue\n")
+		}
+		wantEnv = append(wantEnv, want+"\n") // external process
 		for i, w := range wantEnv {
 			if i >= len(rep[0].Results) {
 				obs = append(obs, c13Obs{"unexpected-failure", "missing command result"})
